@@ -1039,7 +1039,8 @@ func (r *reader) resolveToken(token []byte) Object {
 			}
 		}
 	}
-	return Symbol(buf)
+	// buf may have been edited by a number arm that did not pan out.
+	return Symbol(bytes.ToLower(token))
 }
 
 const hexByteValues = "" +
